@@ -19,7 +19,9 @@ Inductive h3frame :=
 | H3Settings (s : h3settings).
 
 Inductive h3err :=
-| H3EOF                        (* the reader ran dry: inside a varint, a skipped payload, a SETTINGS payload *)
+| H3EOF                        (* io.EOF: the reader ran dry - between two frames, or (control streams / first frame of a
+                                  response, bodyStream = false) anywhere; always inside a SETTINGS payload *)
+| H3UnexpectedEOF              (* io.ErrUnexpectedEOF: a message-body stream (bodyStream = true) ended inside a frame *)
 | H3Reserved (t : N)           (* "http3: reserved frame type" + conn.CloseWithError(H3_FRAME_UNEXPECTED) *)
 | H3SettingsTooLarge (l : N)   (* "unexpected size for SETTINGS frame" *)
 | H3DupSetting (id : N)        (* "duplicate setting" *)
@@ -82,29 +84,35 @@ Definition h3_parse_settings_frame (input : bytes) (l : N) : h3res h3frame * byt
     | H3Err e => (H3Err e, skipn (N.to_nat l) input)
     end.
 
-(* frameParser.ParseNext: result and what is left in the reader (for DATA / HEADERS the payload is
-   NOT consumed).  One turn per frame skipped. *)
-Fixpoint h3_parse_next_fuel (fuel : nat) (input : bytes) : h3res h3frame * bytes :=
+(* frameParser.truncated: the error for a stream that ended inside a frame *)
+Definition trunc_err (body : bool) : h3err := if body then H3UnexpectedEOF else H3EOF.
+
+(* frameParser.ParseNext (body = the bodyStream flag): result and what is left in the reader (for
+   DATA / HEADERS the payload is NOT consumed).  One turn per frame skipped; the byte counter that
+   tells "ended between two frames" from "ended inside the frame type" starts afresh every turn. *)
+Fixpoint h3_parse_next_fuel (body : bool) (fuel : nat) (input : bytes) : h3res h3frame * bytes :=
   match fuel with
   | O => (H3Err H3EOF, [])
   | S f =>
     match vi_read input with
-    | None => (H3Err H3EOF, [])
+    | None => (H3Err (match input with [] => H3EOF | _ => trunc_err body end), [])
     | Some (t, r1) =>
       match vi_read r1 with
-      | None => (H3Err H3EOF, [])
+      | None => (H3Err (trunc_err body), [])
       | Some (l, r2) =>
         if t =? h3FrameData then (H3Ok (H3Data l), r2)
         else if t =? h3FrameHeaders then (H3Ok (H3Headers l), r2)
         else if t =? h3FrameSettings then h3_parse_settings_frame r2 l
         else if memN t h3ReservedTypes then (H3Err (H3Reserved t), r2)
-        else if lenN r2 <? l then (H3Err H3EOF, [])        (* io.CopyN: short -> io.EOF *)
-        else h3_parse_next_fuel f (skipn (N.to_nat l) r2)
+        else if lenN r2 <? l then (H3Err (trunc_err body), [])        (* io.CopyN: short -> io.EOF -> truncated *)
+        else h3_parse_next_fuel body f (skipn (N.to_nat l) r2)
       end
     end
   end.
-Definition h3_parse_next (input : bytes) : h3res h3frame * bytes :=
-  h3_parse_next_fuel (S (length input)) input.
+Definition h3_parse_next_b (body : bool) (input : bytes) : h3res h3frame * bytes :=
+  h3_parse_next_fuel body (S (length input)) input.
+(* control streams and the first frame of a response *)
+Definition h3_parse_next (input : bytes) : h3res h3frame * bytes := h3_parse_next_b false input.
 
 (* ---- writers ---- *)
 Definition opt_app (a b : option bytes) : option bytes :=
